@@ -100,6 +100,7 @@ def o_prov(prog, res):
         for lv, op, rhs, w in ir.writes_of(s):
             k = obj_key(lv) if lv.get("k") == "mem" else None
             if k and k[0] == REC and k[1] in BUFS:
+                rhs = congr.inline_expr(prog, fset, rhs, ptrs=True)
                 for c in ir.calls_in(rhs):
                     if c.get("fn") in ("checked_realloc", "realloc", "malloc"):
                         size = c["args"][-1]
@@ -194,7 +195,8 @@ def realloc_covers(prog, res):
             def resizes(ss, bname=bname):
                 for lv, op, rhs, w in ir.writes_of(ss):
                     if lv.get("k") == "mem" and obj_key(lv) == (REC, bname) and \
-                            any(c.get("fn") in ("checked_realloc", "realloc", "malloc") for c in ir.calls_in(rhs)):
+                            any(c.get("fn") in ("checked_realloc", "realloc", "malloc")
+                                for c in ir.calls_in(congr.inline_expr(prog, g, rhs, ptrs=True))):
                         return True
                 return False
             ok, w = paths.all_paths_pass(g, (bid, i), "exit", resizes, edge_ok=to_error)
